@@ -595,6 +595,65 @@ def r8_renormalisation_loops(idx, r):
         raise AnalysisError(f"only {n} renormalisation loops found (MOX.setMassFracPuO2 expected)")
 
 
+def r9_register_then_attach(idx, r):
+    """(a) A nuclide is attached to its element only AFTER the global registration accepted it (addGlobalNuclide raises on a duplicate name,
+    label or MCNP id): attaching first leaves a rejected nuclide in the element's isotope list - absent from every lookup table, but counted
+    in the element's natural abundance.  (b) A material's applyInputParams that (re)assigns a field of the material from its arguments does so
+    before the composition is computed from that field: a later assignment means the composition was computed from the previous call's value."""
+    nb = idx.modules.get("armi.nucDirectory.nuclideBases")
+    n = 0
+    for f in nb.all_funcs():
+        if f.name != "__init__" or f.cls is None:
+            continue
+        att = [c for c in iter_calls(f.node) if call_attr(c) == "append" and norm(c.func.value) in ("self.element", "element") and c.args and norm(c.args[0]) == "self"]
+        if not att:
+            continue
+        n += 1
+        fl = Flow(f.node, lambda nd: ["registered"] if isinstance(nd, ast.Call) and dotted(nd.func) == "addGlobalNuclide" else []).run()
+        for c in att:
+            stb = fl.state_before(c)
+            r.require(stb is not None and stb.get("registered", (0, 0))[0] >= 1, f"{f.qualname}:attached-after-registration", f, node=c,
+                      msg="the nuclide is appended to its element before addGlobalNuclide() had the chance to refuse it: a rejected (duplicate) nuclide stays in the element's nuclide list and "
+                          "the element's natural abundances no longer sum to one")
+    if n < 1:
+        raise AnchorMissing("nuclideBases: self.element.append(self) in a nuclide constructor")
+    k = 0
+    for m in idx.modules.values():
+        if not m.name.startswith("armi.materials") or ".tests" in m.name:
+            continue
+        for f in m.all_funcs():
+            if f.name != "applyInputParams" or f.cls is None:
+                continue
+            writes = {}
+            for s_ in iter_stores(f.node, include_nested=False):
+                if s_.kind == "assign" and s_.chain == f"self.{s_.attr}" and s_.value is not None and not any(isinstance(x, ast.Attribute) and norm(x) == s_.chain for x in ast.walk(s_.value)):
+                    if not path_conditions(f.node, s_.stmt):
+                        writes.setdefault(s_.attr, s_.stmt)
+            if not writes:
+                continue
+            k += 1
+
+            def ev(nd, writes=writes):
+                return [f"w:{a}" for a, st_ in writes.items() if nd is st_]
+            fl = Flow(f.node, ev).run()
+            bad = []
+            for st_ in walk_local(f.node):
+                if not isinstance(st_, ast.stmt) or isinstance(st_, (ast.If, ast.For, ast.While, ast.With, ast.Try, ast.FunctionDef)) or any(st_ is w for w in writes.values()):
+                    continue
+                stb = fl.state_before(st_)
+                if stb is None:
+                    continue
+                for x in ast.walk(st_):
+                    if isinstance(x, ast.Attribute) and isinstance(x.ctx, ast.Load) and norm(x.value) == "self" and x.attr in writes and stb.get(f"w:{x.attr}", (0, 0))[1] == 0 \
+                            and writes[x.attr].lineno > st_.lineno:
+                        bad.append((st_, x.attr))
+            r.require(not bad, f"{f.cls.name}.applyInputParams:fields-assigned-before-use", f, node=bad[0][0] if bad else None,
+                      msg=f"`{norm(bad[0][0])[:70] if bad else ''}` reads self.{bad[0][1] if bad else ''}, which this very call assigns only further down: the composition is computed from the value "
+                          "left by the constructor or a previous call (mass fractions no longer sum to one for a non-default input)")
+    if k < 2:
+        raise AnalysisError(f"only {k} applyInputParams methods assigning material fields found")
+
+
 def run(idx, chk):
     chk.explanation = (
         "C19: nuclides.dat, elements.dat, burn-chain.yaml and mcc-nuclides.yaml are parsed as data and linted exhaustively (unique (Z,A,S), N=A-Z, "
@@ -618,3 +677,5 @@ def run(idx, chk):
                  necessary="'each nuclide belongs to the element with its atomic number' and every lookup returns THAT nuclide, also after the directory was rebuilt")
     chk.run_rule("R19.8", "a loop that renormalises the nuclides of one element divides by that element's own total", lambda r: r8_renormalisation_loops(idx, r), floor=2,
                  necessary="library materials have mass fractions summing to one, also after an input modification re-splits two elements")
+    chk.run_rule("R19.9", "a nuclide joins its element only after registration accepted it; applyInputParams assigns a field before computing the composition from it", lambda r: r9_register_then_attach(idx, r), floor=3,
+                 necessary="a rejected registration leaves the directory consistent; every material composition is normalised for every admitted input")
